@@ -18,7 +18,7 @@ E(c, g) == [c |-> c, g |-> g]
 SeqsUpTo(S, n) == UNION {[1..k -> S] : k \in 0..n}
 
 F0 == [kind |-> "Type1", enc |-> "dict", base |-> "win", diff |-> <<>>, tu |-> <<>>, file |-> FALSE, std |-> FALSE, ent |-> <<>>,
-       fc |-> 1, widths |-> <<600, 0, 725>>, wform |-> "direct", mw |-> -1, fm |-> "m001"]
+       fc |-> 1, widths |-> <<1200, 0, 1450>>, wform |-> "direct", mw |-> -1, fm |-> "m001"]
 Tu3 == [1..3 -> {"none", "t1", "t2"}]
 TuOne == <<"none", "t1", "none">>
 
@@ -37,16 +37,18 @@ FontsPrec ==
           k \in PrecKinds, eb \in EncDict, t \in Tu3, d \in SeqsUpTo({I(2), N("gA"), N("gBad")}, 2)}
 
 \* (3) widths: FirstChar/Widths windows, MissingWidth, Type3 font matrices, standard-14 metrics by character
-WidthSeqs == {<<>>, <<500>>, <<500, 0>>, <<500, 0, 725>>, <<500, 0, 725, 1000>>}
+\* NUMBERS (Widths elements, MissingWidth) are written in HALVES of a glyph-space unit, so that the real-valued numbers
+\* the standard allows wherever it says "number" are part of the space: 1000 = 500, 1001 = 500.5, 555 = 277.5
+WidthSeqs == {<<>>, <<1000>>, <<1001, 0>>, <<1000, 0, 1451>>, <<1000, 0, 1450, 2001>>}
 \* wform: how /Widths is written in the file - indirect objects are transparent (ISO 32000-1 7.3.10), so the model's
 \* result does not depend on it: the array directly, every second element / every element an indirect reference to a
 \* number, or the array itself an indirect object
 WForms == {"direct", "someref", "allref", "arrayref"}
 FontsWidth ==
   {[F0 EXCEPT !.kind = k, !.fc = fc, !.widths = w, !.mw = mw, !.wform = wf] :
-      k \in {"Type1", "MMType1", "TrueType"}, fc \in {1, 3, 5}, w \in WidthSeqs, mw \in {-1, 250}, wf \in WForms}
+      k \in {"Type1", "MMType1", "TrueType"}, fc \in {1, 3, 5}, w \in WidthSeqs, mw \in {-1, 500, 555}, wf \in WForms}
   \cup {[F0 EXCEPT !.kind = "Type3", !.fc = fc, !.widths = w, !.mw = mw, !.fm = fm, !.wform = wf] :
-      fc \in {1, 3, 5}, w \in WidthSeqs, mw \in {-1, 250}, fm \in {"m001", "m01", "skew"}, wf \in WForms}
+      fc \in {1, 3, 5}, w \in WidthSeqs, mw \in {-1, 500, 555}, fm \in {"m001", "m01", "skew"}, wf \in WForms}
   \cup {[F0 EXCEPT !.kind = "Std14", !.enc = eb[1], !.base = eb[2], !.diff = d, !.tu = t] :
       eb \in {<<"dict", "win">>, <<"dict", "absent">>},
       d \in {<<>>, <<I(2), N("gA")>>, <<I(2), N("gBad")>>, <<I(1), N("gB"), N("gA")>>},
